@@ -141,6 +141,11 @@ func VerifyProof(root, key *felt.Felt, proof *ProofNodeSet, hash crypto.HashFn) 
 			}
 			expected = felt.Felt(*cld)
 		case *trienode.ValueNode:
+			// A value sits at the end of the key's path: a value node reached earlier means
+			// the proof ends before all key bits are processed.
+			if keyBits.Len() != 0 {
+				return felt.Zero, fmt.Errorf("proof ends with %d key bits left", keyBits.Len())
+			}
 			return felt.Felt(*cld), nil
 		case *trienode.EdgeNode, *trienode.BinaryNode:
 			if hash, _ := cld.Cache(); hash != nil {
